@@ -521,6 +521,13 @@ func ParamWrites(f *ssa.Function, k int, isOutput func(g *ssa.Function, idx int)
 					out = append(out, ParamWrite{in, "append to it (fills the spare capacity of the caller's array in place)"})
 					continue
 				}
+				// bytes.NewBuffer(p) adopts p's array: a write to the buffer appends into its spare capacity
+				if name == "bytes.NewBuffer" && len(args) == 1 && derived(args[0]) {
+					if bv, ok := in.(ssa.Value); ok && bufferWritten(bv) {
+						out = append(out, ParamWrite{in, "adopted by bytes.NewBuffer as a buffer that is written (the spare capacity of the caller's array is filled in place)"})
+						continue
+					}
+				}
 				if idx, ok := libMutators[name]; ok && idx < len(args) && derived(args[idx]) {
 					out = append(out, ParamWrite{in, "destination of " + name[strings.LastIndex(name, "/")+1:]})
 					continue
@@ -547,4 +554,36 @@ func ParamWrites(f *ssa.Function, k int, isOutput func(g *ssa.Function, idx int)
 		}
 	}
 	return out
+}
+
+// bufferWritten: the *bytes.Buffer value b is written in its function - a writing method is called on it, or it is
+// converted to an interface that has a Write method (io.Writer and its supersets) and so handed to a writer.
+func bufferWritten(b ssa.Value) bool {
+	refs := b.Referrers()
+	if refs == nil {
+		return false
+	}
+	for _, ref := range *refs {
+		switch x := ref.(type) {
+		case *ssa.MakeInterface:
+			if it, ok := x.Type().Underlying().(*types.Interface); ok {
+				for i := 0; i < it.NumMethods(); i++ {
+					if it.Method(i).Name() == "Write" {
+						return true
+					}
+				}
+			}
+		case ssa.CallInstruction:
+			name := CalleeName(x.Common())
+			if strings.HasPrefix(name, "(*bytes.Buffer).") {
+				switch strings.TrimPrefix(name, "(*bytes.Buffer).") {
+				case "Write", "WriteByte", "WriteRune", "WriteString", "ReadFrom", "Grow", "Truncate", "Reset", "AvailableBuffer":
+					return true
+				}
+			}
+		case *ssa.Store, *ssa.Phi:
+			return true // kept somewhere: not followed, assume the worst
+		}
+	}
+	return false
 }
